@@ -6,16 +6,17 @@ require (
 	github.com/Flowpack/prunner v0.0.0
 	github.com/anishathalye/porcupine v1.3.0
 	github.com/apex/log v1.9.0
+	github.com/go-chi/chi/v5 v5.0.7
 	github.com/go-chi/jwtauth/v5 v5.0.2
 	github.com/gofrs/uuid v4.2.0+incompatible
 	github.com/taskctl/taskctl v1.3.1-0.20210426182424-d8747985c906
+	gopkg.in/yaml.v2 v2.4.0
 )
 
 require (
 	github.com/briandowns/spinner v1.18.1 // indirect
 	github.com/fatih/color v1.13.0 // indirect
 	github.com/friendsofgo/errors v0.9.2 // indirect
-	github.com/go-chi/chi/v5 v5.0.7 // indirect
 	github.com/json-iterator/go v1.1.12 // indirect
 	github.com/lestrrat-go/backoff/v2 v2.0.8 // indirect
 	github.com/lestrrat-go/blackmagic v1.0.1 // indirect
@@ -36,7 +37,6 @@ require (
 	golang.org/x/sync v0.1.0 // indirect
 	golang.org/x/sys v0.3.0 // indirect
 	golang.org/x/term v0.3.0 // indirect
-	gopkg.in/yaml.v2 v2.4.0 // indirect
 	mvdan.cc/sh/v3 v3.6.0 // indirect
 )
 
